@@ -9,14 +9,17 @@ def n_of(c, quick, thorough):
 
 
 def c03(tier=None):
-    c = Check("C03", ["Wasp.Properties.C03", "Wasp.Properties.C06", "Wasp.Properties.C04", "Wasp.Properties.Facts.C03"], tier)
+    c = Check("C03", ["Wasp.Properties.C03", "Wasp.Properties.C02Pool", "Wasp.Properties.C06", "Wasp.Properties.C04", "Wasp.Properties.Facts.C03"], tier)
     c.build()
     samples = []
-    scs = brokerlib.corpus(c.rng, ["slow-qos2", "wrong-type-ack", "inbound-outbound-id"])
+    scs = brokerlib.corpus(c.rng, ["slow-qos2", "wrong-type-ack", "inbound-outbound-id", "ids-return-after-recipient-vanished"])
     scs += [gen_retransmit(c.rng, c.rng.choice([1, 1, 2])) for _ in range(n_of(c, 14, 200))]
     run_scenarios(c, "retransmission-scripts", scs, samples)
     from checks import writerlib
     writerlib.add_pool_suites(c, samples)
+    # "at the first sweep after its deadline": the real ack.Queue under real (not synthetic) sweep times
+    from checks import c04
+    c04.add_queue_suites(c, samples, exhaustive_n=2, n_random=n_of(c, 600, 10000))
     c.assumptions += ["acknowledgement deadlines are driven by synthetic sweeps (ack.Queue.Expire with a time past every armed deadline)"]
     return c.finish(samples=samples, rule="case = one script of deliveries left unacknowledged, sweeps and client answers (right ack, wrong type, wrong id, silence, disconnect) over 1-3 subscribers")
 
@@ -25,7 +28,7 @@ def c05(tier=None):
     c = Check("C05", ["Wasp.Properties.C05", "Wasp.Properties.C04", "Wasp.Properties.Facts.C05"], tier)
     c.build()
     samples = []
-    scs = brokerlib.corpus(c.rng, ["inbound-outbound-id"])
+    scs = brokerlib.corpus(c.rng, ["inbound-outbound-id", "same-client-id-overlapping-qos2"])
     scs += [gen_faults(c.rng, c.rng.choice([1, 2, 3, 3])) for _ in range(n_of(c, 24, 300))]
     run_scenarios(c, "publish-under-write-failures", scs, samples)
     return c.finish(samples=samples, rule="case = one placement of subscribers over 1-3 nodes with 3-8 publishes (QoS 0/1/2, repeated PUBREL), each under a fresh pattern of local-log and remote-node write failures")
@@ -43,7 +46,7 @@ def c14(tier=None):
 
 
 def c11(tier=None):
-    c = Check("C11", ["Wasp.Properties.C11", "Wasp.Properties.C09", "Wasp.Properties.C08", "Wasp.Properties.Facts.C11"], tier)
+    c = Check("C11", ["Wasp.Properties.C11", "Wasp.Properties.C11Time", "Wasp.Properties.C09", "Wasp.Properties.C08", "Wasp.Properties.Facts.C11"], tier)
     c.build()
     samples = []
     scs = [gen_lifecycle(c.rng, c.rng.choice([1, 2, 3]), 1, takeover=0.15) for _ in range(n_of(c, 12, 160))]
@@ -84,17 +87,17 @@ def c17(tier=None):
     samples = []
     scs = [gen_converged(c.rng, c.rng.choice([1, 2]), c.rng.choice([2, 3]), c.rng.choice([12, 18]), {"pub": 8, "sub": 5, "end": 2}) for _ in range(n_of(c, 10, 150))]
     run_scenarios(c, "tenants-publish-retain-will", scs, samples)
-    scs = brokerlib.corpus(c.rng, ["same-client-id-two-tenants"])
+    scs = brokerlib.corpus(c.rng, ["same-client-id-two-tenants", "same-client-id-overlapping-qos2"])
     scs += [gen_lifecycle(c.rng, c.rng.choice([1, 2]), 2, takeover=0.6) for _ in range(n_of(c, 8, 120))]
     run_scenarios(c, "tenants-shared-client-ids", scs, samples)
     return c.finish(samples=samples, rule="case = one script with clients spread over 2-3 mount points using '#', '+/...' and literal filters, publishes / retained messages / wills, and client identifiers shared across mount points")
 
 
 def c02(tier=None):
-    c = Check("C02", ["Wasp.Properties.C02", "Wasp.Properties.C15", "Wasp.Properties.Facts.C02"], tier)
+    c = Check("C02", ["Wasp.Properties.C02", "Wasp.Properties.C02Pool", "Wasp.Properties.C15", "Wasp.Properties.Facts.C02"], tier)
     c.build()
     samples = []
-    scs = brokerlib.corpus(c.rng, ["first-message", "slow-qos2", "inbound-outbound-id"])
+    scs = brokerlib.corpus(c.rng, ["first-message", "slow-qos2", "inbound-outbound-id", "ids-return-after-recipient-vanished"])
     scs += [gen_converged(c.rng, 1, 1, c.rng.choice([10, 14]), {"pub": 10, "sub": 3, "unsub": 0.5, "end": 0.5}) for _ in range(n_of(c, 8, 100))]
     run_scenarios(c, "acked-publish-delivered", scs, samples)
     # acknowledged publishes must reach subscribers whose earlier QoS 1/2 exchanges are slow, time out and are resumed
